@@ -309,8 +309,8 @@ def check_gain(P: C.Part, s: Dict[str, Any], res, x: np.ndarray, y: np.ndarray, 
         w = wcache[L]
         omega = 2 * np.pi * float(f[j]) / fs
         D = res.D[j]
-        a = seg_amp(x, D, L, w)
-        b = seg_amp(y, D, L, w) if g != 0 else 1e-300
+        a = seg_amp(x, D, L, w, order)
+        b = seg_amp(y, D, L, w, order) if g != 0 else 1e-300
         tXX, tYY, tXY, _ = _an.bin_tol(L, omega, a, b, order)
         fwd = (tXY + abs(g) * tXX + 4 * U * abs(g) * a * a) / XX           # |Hxy' − g| <= (|e_XY| + |g||e_XX|)/XX'
         tolH = max(spec_rel * abs(g), fwd)
@@ -319,7 +319,7 @@ def check_gain(P: C.Part, s: Dict[str, Any], res, x: np.ndarray, y: np.ndarray, 
         if decisive:
             P.nontrivial.add(("gain", o["scheduler"], order, o["win"], backend, s["idx"] % 5, L))
             stats["gain_worst_rel"] = max(stats.get("gain_worst_rel", 0.0), errH / abs(g))
-        P.hit("gain.decisive" if decisive else "gain.vacuous(XX at rounding level)")
+        P.hit("gain.decisive" if decisive else "gain.loose(tol>1e-3|g|: XX small against the raw magnitude)")
         if not errH <= tolH:
             viol(P, f"{backend} {o['scheduler']} order={order} win={o['win']}: y={g!r}*x but Hxy[{j}]={complex(H[j])!r} (|err|={errH:.3g} > tol {tolH:.3g}), L={L} f={f[j]!r}",
                  {**sigb, "sub": "gain"}, s, backend, {"bin": j, "observed": complex(H[j]), "expected": g, "tol": tolH})
@@ -389,8 +389,8 @@ def check_delay(P: C.Part, s: Dict[str, Any], res, x: np.ndarray, y: np.ndarray,
         omega = 2 * np.pi * float(f[j]) / fs
         phi = omega * d
         D = res.D[j]
-        a = seg_amp(x, D, L, w)
-        b = seg_amp(y, D, L, w)
+        a = seg_amp(x, D, L, w, order)
+        b = seg_amp(y, D, L, w, order)
         tXX, tYY, tXY, _ = _an.bin_tol(L, omega, a, b, order)
         if XX <= 4 * tXX:
             P.hit("delay.vacuous(XX at rounding level)")
@@ -440,8 +440,8 @@ def check_backends(P: C.Part, s: Dict[str, Any], results: Dict[str, Any], x: np.
             L = int(r0.L[j])
             w = _an.window(o["win"], L, o.get("psll"))
             omega = 2 * np.pi * float(r0.f[j]) / s["fs"]
-            a = seg_amp(x, r0.D[j], L, w)
-            b = seg_amp(y, r0.D[j], L, w)
+            a = seg_amp(x, r0.D[j], L, w, o["order"])
+            b = seg_amp(y, r0.D[j], L, w, o["order"])
             tXX, tYY, tXY, tM2 = _an.bin_tol(L, omega, a, b, o["order"])
             P.cases += 1
             P.hit("backends.bin")
@@ -465,11 +465,15 @@ def run_spec(P: C.Part, s: Dict[str, Any], backends: List[str], cuda: Optional[C
     keep = data.copy()
     # plan errors are C02's business: only a failure AFTER a successful plan counts here
     if not s["mode"].startswith("single"):
+        import logging
         try:
+            logging.disable(logging.CRITICAL)
             with warnings.catch_warnings():
                 warnings.simplefilter("ignore")
                 _an.analyzer(data, s["fs"], **s["o"]).plan()
+            logging.disable(logging.NOTSET)
         except (Exception, SystemExit) as ex:          # some schedulers call sys.exit() on an empty plan
+            logging.disable(logging.NOTSET)
             P.hit("plan-raised(skipped)")
             P.notes.append(f"plan raised for {short(s)}: {ex!r}"[:160]) if len(P.notes) < 4 else None
             return
@@ -487,7 +491,9 @@ def run_spec(P: C.Part, s: Dict[str, Any], backends: List[str], cuda: Optional[C
             continue
         results[be] = res
         P.hit(f"backend.{be}")
-        P.hit(f"{s['mode']}.{s['o']['scheduler']}.order{s['o']['order']}.{s['o']['win']}")
+        P.hit(f"{s['mode']}.{s['o']['scheduler']}")
+        P.hit(f"{s['mode']}.order{s['o']['order']}")
+        P.hit(f"win.{s['o']['win']}")
         if "d" in s:
             check_delay(P, s, res, x, y, xl, be, stats)
         else:
@@ -540,8 +546,8 @@ def correspondence(ctx) -> C.Part:
         Q = core._build_Q(L, order) if order >= 1 else None
         name = {-1: "_stats_win_only_csd", 0: "_stats_detrend0_csd"}.get(order, "_stats_poly_csd")
         args = [x1, x2, starts, L, w, omega] + ([Q] if order >= 1 else [])
-        a = seg_amp(x1, starts, L, w)
-        b = seg_amp(x2, starts, L, w)
+        a = seg_amp(x1, starts, L, w, order)
+        b = seg_amp(x2, starts, L, w, order)
         tXX, tYY, tXY, tM2 = _an.bin_tol(L, omega, a, b, order)
         tol = (tXX, tYY, tXY, tXY, tM2)
         mdl = tuple(ctx.driver.floats(ref_line(order, x1, x2, starts, L, w, omega, Q)))
